@@ -124,6 +124,31 @@ class Plan:
             raise make_exc(self.exc, f"injected failure at point {i} ({name})")
 
 
+def task_role(task):
+    """Who runs this task?  Decided by the object its top-level coroutine belongs to (not by
+    the name of the method, which a refactor may change): "feedback" = a background task of an
+    AirPlayV1/V2 stream-protocol object (feedback / keep-alive), "sync" = ControlClient's
+    periodic sync task, None = anything else."""
+    try:
+        from pyatv.protocols.raop.protocols import StreamProtocol
+        from pyatv.protocols.raop.stream_client import ControlClient
+    except Exception:
+        return None
+    coro = task.get_coro()
+    frame = getattr(coro, "cr_frame", None)
+    owner = frame.f_locals.get("self") if frame is not None else None
+    if isinstance(owner, StreamProtocol):
+        return "feedback"
+    if isinstance(owner, ControlClient):
+        return "sync"
+    name = getattr(coro, "__qualname__", "")
+    if "_feedback_task_loop" in name or "_send_keep_alive" in name:
+        return "feedback"
+    if "_sync_handler" in name:
+        return "sync"
+    return None
+
+
 class World:
     """All fake objects ever created, so that `what is still held` can be observed."""
 
@@ -167,8 +192,7 @@ class World:
         """Pending feedback / keep-alive tasks started by the (real) stream protocol objects."""
         out = []
         for t in asyncio.all_tasks():
-            co = getattr(t.get_coro(), "__qualname__", "")
-            if not t.done() and ("_feedback_task_loop" in co or "_send_keep_alive" in co):
+            if not t.done() and task_role(t) == "feedback":
                 out.append(t)
         return out
 
@@ -289,8 +313,7 @@ def make_stream_client(world, info):
             self.connection = connection
 
         async def _req(self, name):
-            co = getattr(asyncio.current_task().get_coro(), "__qualname__", "")
-            if "_feedback_task_loop" in co or "_send_keep_alive" in co:
+            if task_role(asyncio.current_task()) == "feedback":
                 await asyncio.sleep(0)      # a background task of the protocol object asks
                 return
             await world.plan.point("rtsp." + name)
@@ -850,10 +873,7 @@ def stray(before):
     cancels but which ends by itself at its next tick once the control socket is closed."""
     out = []
     for t in asyncio.all_tasks() - before:
-        co = getattr(t.get_coro(), "__qualname__", "")
-        if t.done() or t is asyncio.current_task() or "_sync_handler" in co:
-            continue
-        if "_feedback_task_loop" in co or "_send_keep_alive" in co:
+        if t.done() or t is asyncio.current_task() or task_role(t) in ("sync", "feedback"):
             continue
         out.append(t)
     return out
